@@ -345,7 +345,7 @@ class PG:
         path.reverse()
         return path
 
-    def dominated_by_block(self, site_at, pred):
+    def dominated_by_block(self, site_at, pred, assume=None):
         """True iff every path entry -> site passes through (the end of) a block b with pred(b).
         A pred block equal to the site's block counts only if the site is its terminator... never:
         the site must come strictly after the block."""
@@ -362,7 +362,9 @@ class PG:
                 return False
             if pred(bi):
                 continue
-            for m, _ in self.edges[n] or []:
+            for m, lits in self.edges[n] or []:
+                if assume and any(contradicts(self.facts, a, l) for a in assume for l in lits):
+                    continue
                 if m not in seen:
                     work.append(m)
         return True
